@@ -98,6 +98,9 @@ func RunC13(env *sim.Env) {
 		if t.Choose(4) == 0 && returnClearWorks() {
 			opts.CatchForm = 3
 			env.Stat("probe:return_statement_in_catch_body", 1)
+		} else if t.Choose(6) == 0 {
+			opts.CatchForm = 4
+			env.Stat("probe:empty_catch_body_with_variable", 1)
 		}
 	}
 	world := gen.GenWorld(t, opts)
@@ -223,7 +226,7 @@ func RunC13(env *sim.Env) {
 			switch {
 			case k%4 == 3:
 				kind = 2
-			case k%4 == 1 && opts.CatchForm < 2:
+			case k%4 == 1 && (opts.CatchForm < 2 || opts.CatchForm == 4):
 				kind = 1
 			case k%4 == 2:
 				kind = 3 // an error that wraps another one: the catch variable holds the error raised, not its cause
@@ -331,14 +334,15 @@ func RunC13(env *sim.Env) {
 			}
 			// (b)/(c): nothing of the body, the catch exactly once
 			wantPrefix := ""
-			if opts.CatchForm > 0 {
+			catchText := opts.CatchForm >= 1 && opts.CatchForm <= 3 // forms 0 (no catch) and 4 (empty catch body) render nothing
+			if catchText {
 				wantPrefix = "[CATCH]"
 			}
 			okMid := strings.HasPrefix(mid, wantPrefix)
 			tail := strings.TrimPrefix(mid, wantPrefix)
 			// the catch body also prints '.': it runs at the place of the try statement, so it must see
 			// the context the statement had (what the state probe right after the statement prints)
-			if opts.CatchForm > 0 {
+			if catchText {
 				ctxAfter := strings.TrimPrefix(segment(post, "ctx"), "<ctx:")
 				ctxAfter = strings.TrimSuffix(ctxAfter, ">")
 				if i := strings.Index(tail, "<cc:"); i >= 0 && strings.HasSuffix(tail, ">") {
@@ -352,7 +356,7 @@ func RunC13(env *sim.Env) {
 				}
 			}
 			switch opts.CatchForm {
-			case 0, 1:
+			case 0, 1, 4:
 				okMid = okMid && tail == ""
 			case 2, 3:
 				inj := fmt.Sprintf("INJ-%d-", id)
@@ -365,9 +369,9 @@ func RunC13(env *sim.Env) {
 			}
 			if !okMid {
 				key := "body-leaked"
-				if strings.Count(mid, "[CATCH]") != boolInt(opts.CatchForm > 0) {
+				if strings.Count(mid, "[CATCH]") != boolInt(catchText) {
 					key = "catch-count"
-				} else if opts.CatchForm >= 2 && kind != 2 && !strings.Contains(mid, fmt.Sprintf("INJ-%d-", id)) {
+				} else if catchText && opts.CatchForm >= 2 && kind != 2 && !strings.Contains(mid, fmt.Sprintf("INJ-%d-", id)) {
 					key = "catch-var"
 				}
 				env.Violate("spliced-output", key, "failure at call %d = fail(%d) (%s line %d, under %v): the try statement rendered %s; expected only the catch body (form %d) with the injected error", k, id, ps.File, ps.Line, ps.Encl, sim.Q(mid), opts.CatchForm)
